@@ -94,7 +94,8 @@ inductive Dec
   | needMore (f : Nat)
   /-- any `ParseError` other than `TooLarge`/`Io` ⇒ 400 -/
   | bad
-  /-- `ParseError::Io` (malformed chunk framing) ⇒ `client_disconnected` -/
+  /-- `ParseError::Io` other than `InvalidInput` ⇒ `client_disconnected` (malformed chunk framing is
+      `InvalidInput` and takes the `bad` path since the combined tree) -/
   | ioErr
   deriving DecidableEq, Repr
 
